@@ -21,8 +21,10 @@ static std::string vec(const Eigen::VectorXd &v) {
 static std::vector<double> eval_points(Rng &r, const Eigen::VectorXd &x) {
   std::vector<double> p;
   Eigen::Index N = x.size();
-  for (Eigen::Index i = 0; i < N; i++) p.push_back(x(i));                       // knots and both ends
+  // random interior points first, in no particular order (an object that remembers where it was asked last must not depend on ascending queries)
   for (int k = 0; k < 6; k++) { Eigen::Index i = (Eigen::Index)r.below(N - 1); p.push_back(x(i) + (x(i + 1) - x(i)) * (double)r.range(1, 7) / 8.0); }
+  if (r.coin()) for (Eigen::Index i = 0; i < N; i++) p.push_back(x(i));         // knots and both ends, ascending or descending
+  else for (Eigen::Index i = N - 1; i >= 0; i--) p.push_back(x(i));
   p.push_back(x(0) - 0.25); p.push_back(x(N - 1) + 0.5);                       // outside the grid (clamped interval)
   return p;
 }
@@ -49,6 +51,21 @@ static std::string evals(S &s, const std::vector<double> &p) {
   return o.str();
 }
 
+// one case in three hands the spline object a data set it has seen before: an eight times finer grid on the same range, evaluated once
+// near the left end — the property is about every data set an object interpolates, not only its first
+template <class S> static void warm_up(S &s, Rng &r, const Eigen::VectorXd &x) {
+  if (!r.coin(1, 3)) return;
+  long n = 8 * x.size();
+  Eigen::VectorXd wx(n), wy = Eigen::VectorXd::Zero(n);
+  double a = x(0), b = x(x.size() - 1);
+  for (long i = 0; i < n; i++) wx(i) = a + (b - a) * (double)i / (double)(n - 1);
+  for (long i = 1; i + 1 < n; i++) wy(i) = std::sin(7.0 * (double)i / (double)n);
+  s.Interpolate(wx, wy);
+  volatile double sink = s.Calculate(a + (b - a) * (0.05 + 0.1 * r.unit()));
+  sink = s.CalculateDerivative(a + (b - a) * 0.1);
+  (void)sink;
+}
+
 int main(int argc, char **argv) {
   std::string mode = argc > 1 ? argv[1] : "rand";
   long NC = argc > 2 ? atol(argv[2]) : 300;
@@ -66,6 +83,7 @@ int main(int argc, char **argv) {
       if (per) y(N - 1) = y(0);
       CubicSpline s;
       s.setBC(per ? Spline::splinePeriodic : Spline::splineNormal);
+      warm_up(s, r, x);
       s.Interpolate(x, y);
       printf("C12 cubic %d %d%s%s%s%s\n", per, N, vec(x).c_str(), vec(y).c_str(), vec(s.f2_).c_str(), evals(s, eval_points(r, x)).c_str());
       // linear in the ordinates
@@ -83,6 +101,7 @@ int main(int argc, char **argv) {
       printf("%s\n", o.str().c_str());
     } else if (k < 6) {
       LinSpline s;
+      warm_up(s, r, x);
       s.Interpolate(x, y);
       printf("C12 lin %d%s%s%s\n", N, vec(x).c_str(), vec(y).c_str(), evals(s, eval_points(r, x)).c_str());
     } else if (k < 8) {
@@ -90,6 +109,7 @@ int main(int argc, char **argv) {
       if (per) y(N - 1) = y(0);
       AkimaSpline s;
       s.setBC(per ? Spline::splinePeriodic : Spline::splineNormal);
+      warm_up(s, r, x);
       s.Interpolate(x, y);
       printf("C12 akima %d %d%s%s%s%s\n", per, N, vec(x).c_str(), vec(y).c_str(), vec(s.t).c_str(), evals(s, eval_points(r, x)).c_str());
     } else if (k < 9) {
